@@ -5,6 +5,7 @@ use crate::{Args, Case};
 
 pub mod frame;
 pub mod qpack;
+pub mod static_ref;
 pub mod session;
 pub mod typestate;
 pub mod varint;
